@@ -15,12 +15,15 @@ import c08  # noqa
 from common import VERIF, unS  # noqa
 
 ROOT = {
-    "failed": "an operator applied to a failed/empty text object is not a no-op (TextObject.cut / operator_range on an empty or negative range; inclusive and linewise defaults; line operators on the cursor line)",
-    "col0-collapse": "the exclusive-column-0 adjustment empties a one-newline span and TextObject.cut then cuts a crossed range",
-    "register-name-from-motion-keys": "named-register operators read event.key_sequence[1] of the TEXT OBJECT's event",
+    "failed": "an operator applied to a failed text object is not a no-op where the failure is not an empty exclusive object: the inclusive defaults of e E ge gE g_ act on one character, j / k at the buffer boundary give a linewise object on the cursor line, and the line operators > < gq always act on the cursor line (the text-object functions do not signal failure)",
     "inclusive-end-on-newline": "get_line_numbers takes the row of the exclusive end: an inclusive object ending on a line ending (ge / gE from an empty line) also covers the following line for > < gq",
-    "operator-motion-differs": "under an operator event._arg is always set, so % takes the go-to-percentage branch instead of bracket matching",
 }
+
+FIXED = [
+    "fixed: property=C08 f3ffc71 an operator on a failed or empty EXCLUSIVE text object cut a crossed range: 'abc def' cursor 0 dFx / db -> 'abc dbc def'; cursor 6 dFx deleted 'ef'; 'ab\\ncd' cursor 3 d0 deleted 'b\\nc'; 'a\\n\\nb' cursor 2 dl deleted 'a\\n\\n'; '()' di( deleted the brackets; yFx overwrote the clipboard; '(\\n)' di( deleted '(\\n' (column-0 adjustment on a one-newline span); 22 text-object families x d c y",
+    "fixed: property=C08 f3ffc71 named-register operators read the register name from the text object's key sequence: 'abc def' cursor 4 \"qyw / \"qdw raised IndexError (\"qdw after deleting 'def'), \"qyfx wrote register x, \"qdiw register w",
+    "fixed: property=C08 f3ffc71 % under an operator never matched brackets (event._arg always set): 'a(b)c' cursor 1 d% deleted the whole line instead of '(b)'",
+]
 
 
 class FakeChk:
@@ -61,7 +64,7 @@ def main(argv):
                          "what": what})
     path = os.path.join(VERIF, "known_findings.d", "C08.json")
     with open(path, "w") as f:
-        json.dump({"findings": findings}, f, indent=1)
+        json.dump({"findings": findings, "fixed": FIXED}, f, indent=1)
     print("wrote", path, len(findings))
 
 
